@@ -504,7 +504,12 @@ def run(ctx):
     ctx.cov["problems"] = {"generated": n, "unbuildable": skipped, "with_selected_plan": len({r["pid"] for r in recs}),
                            "with_invariant": sum(1 for p in probs if p["P"]["invariants"]),
                            "executable_sequences_found_by_TLC": sum(len(v) for v in found.values())}
-    ctx.cov["dropped_records"] = len(dropped)
+    ctx.cov["dropped_records"] = {}
+    for r in dropped:
+        k = r["exc"] + " " + r["detail"][:120]
+        ctx.cov["dropped_records"][k] = ctx.cov["dropped_records"].get(k, 0) + 1
+    if len(dropped) * 20 > len(recs) + len(dropped):
+        raise MachineryError("%d of %d records could not be built: %r" % (len(dropped), len(recs) + len(dropped), ctx.cov["dropped_records"]))
     ctx.cov["exhaustive"] = False
     ctx.cov["rule"] = (
         "%d independence-biased G2 problems; TLC (DeorderPlans) emits every executable sequence of <= 5 pairwise distinct "
